@@ -229,7 +229,7 @@ func main() {
 			prefixes = append(prefixes, []byte(s))
 		}
 		emits := map[string]string{"date": "0123456789-", "roman": "MDCLXVImdclxvi", "sem": "0123456789.-+vabcdefghijklmnopqrstuvwxyz", "size": "0123456789 &nbsp;BKMGTPEi", "uu": "0123456789abcdef-urn:id"}
-		spares := []int{0, 1, 2, 7, 64}
+		spares := []int{0, 1, 2, 7, 64, 513, 1024, 5000, 70000}
 		for _, t := range []string{"date", "roman", "sem", "size", "uu"} {
 			t := t
 			r.Phase(fmt.Sprintf("%s.DefaultFormatter: %d values x %d flag subsets x %d prefixes x spare capacities", t, nvals(t), nflags(t), len(prefixes)), "complete grid; spare capacity 0..64 for the multi-byte prefixes, {0,1,2,7,64} for single-byte prefixes", func() {
